@@ -3,15 +3,23 @@
   Property theorems ONLY (helper lemmas live in Rivia/Lemmas/Expand.lean; the specification,
   the grammar of a component and the domain predicates in Rivia/Spec/Expand.lean).
 
+  Model: the REPAIRED scanner (`expandSeg` reads a variable name iff a '$' was consumed, so a
+  component ending in a bare '$' has an empty variable name and fails).  The former finding
+  "trailing '$' silently dropped" (`expand "a$" = "a"`) is gone: `C17_trailing_dollar_rejected`.
+
   Status
     full     : C17_no_special_identity, C17_tilde_only, C17_tilde_slash, the three tilde error
-               theorems, C17_total, C17_scanner_fuel, C17_spec_errors (spec side, all inputs)
-    partial  : C17_vars_partial   (domain `D`   : every normal component well-formed, not Ambiguous)
-               C17_errors_partial (domain `DErr`: no normal component Ambiguous or trailing-'$')
-    refuted  : C17_full (witness "a$": the code drops a trailing '$' instead of failing)
-    findings : trailing '$' (violation), unbalanced braces (unspecified, recorded),
-               order of error kinds inside one component (unspecified, recorded),
-               absolute value replaces the path built so far (pinned by the repository's own test)
+               theorems, C17_total, C17_scanner_fuel, C17_spec_errors (spec side, all inputs),
+               C17_errors / C17_agree / C17_agree_sharp (every input the specification specifies:
+               `DSpec` = no normal component is `Spec.Ambiguous`; no trailing-'$' exclusion any more)
+    partial  : C17_vars_partial (domain `D`: every normal component well-formed, not Ambiguous;
+               there code = specification literally, error kinds included)
+    refuted  : C17_full (literal equality with `expandSpec` on ALL inputs) — only by inputs on
+               which the property text demands nothing: the order of error kinds ("$a$$", not a
+               violation) and the unspecified class `Ambiguous` ("${V")
+    recorded : unbalanced braces (unspecified), order of error kinds inside one component
+               (unspecified), absolute value replaces the path built so far (pinned by the
+               repository's own test)
 -/
 import Rivia.Model.Path
 import Rivia.Spec.Expand
@@ -66,7 +74,10 @@ theorem C17_home_unset_error (env : Env) (s : Str) (h1 : s.count '~' = 1)
 
 /-! ### variables -/
 
-/-- The full property: the code computes the specification on every input.  FALSE (below). -/
+/-- Literal equality of code and specification on every input, including the inputs the
+    specification declares unspecified (`Ambiguous`) and including the kind of the error when a
+    component has two defects.  FALSE (`C17_full_false` below), but no longer by a violation:
+    see `C17_agree_sharp` for what holds on every specified input. -/
 def C17_full : Prop := ∀ (env : Env) (s : Str), expand env s = expandSpec env s
 
 /-- In the domain `D` (decidable: every normal component of the tilde-expanded path is
@@ -97,31 +108,77 @@ theorem C17_spec_errors (env : Env) (s : Str) :
       MultipleTilde s ∨ MisplacedTilde s ∨ HomeUnset env s ∨ EmptyVarName env s ∨ UnsetVar env s :=
   Lemmas.Expand.expandSpec_err_iff env s
 
-/-- In the domain `DErr` (decidable: no normal component of the tilde-expanded path is
-    `Ambiguous` or malformed only by a trailing '$'; `D ⊆ DErr`, malformed components such as
-    `$$`, `a$$b` are inside) the code fails iff one of the documented reasons holds:
-    more than one '~', a misplaced '~', `$HOME` unset, an empty variable name, an unset variable. -/
-theorem C17_errors_partial (env : Env) (s : Str) (h : DErr env s = true) :
+/-- The error clause of the property at full strength, on every input the specification
+    specifies (`DSpec`, decidable: no normal component of the tilde-expanded path is `Ambiguous`;
+    malformed components such as `$$`, `a$$b` and — since the repair — `a$` are inside):
+    the code fails iff one of the documented reasons holds: more than one '~', a misplaced '~',
+    `$HOME` unset, an empty variable name, an unset variable. -/
+theorem C17_errors (env : Env) (s : Str) (h : Lemmas.Expand.DSpec env s = true) :
     (∃ k, expand env s = .err k) ↔
       MultipleTilde s ∨ MisplacedTilde s ∨ HomeUnset env s ∨ EmptyVarName env s ∨ UnsetVar env s := by
-  rw [(Lemmas.Expand.expand_agree_of_DErr env s h).err_iff]
+  rw [(Lemmas.Expand.expand_agree_of_DSpec env s h).err_iff]
   exact Lemmas.Expand.expandSpec_err_iff env s
 
-/-- in `DErr` the code and the specification are equal, or both fail (then possibly with
-    different kinds, see `C17_finding_error_kind_order`) -/
-theorem C17_agree_partial (env : Env) (s : Str) (h : DErr env s = true) :
+/-- on every specified input the code and the specification are equal, or both fail -/
+theorem C17_agree (env : Env) (s : Str) (h : Lemmas.Expand.DSpec env s = true) :
     expand env s = expandSpec env s ∨
       ((∃ k, expand env s = .err k) ∧ ∃ k, expandSpec env s = .err k) :=
-  Lemmas.Expand.expand_agree_of_DErr env s h
+  Lemmas.Expand.expand_agree_of_DSpec env s h
 
-theorem C17_D_subset_DErr (env : Env) (s : Str) (h : D env s = true) : DErr env s = true :=
-  Lemmas.Expand.DErr_of_D h
+/-- the sharp form: on every specified input the code computes the specification, except that a
+    malformed component in which an unset variable is met before the malformed spot is reported
+    as `Var` where the specification says `InvalidExpansion` (the property text does not order the
+    reasons, see `C17_finding_error_kind_order`) -/
+theorem C17_agree_sharp (env : Env) (s : Str) (h : Lemmas.Expand.DSpec env s = true) :
+    expand env s = expandSpec env s ∨
+      (expand env s = .err .var ∧ expandSpec env s = .err .invalidExpansion) :=
+  Lemmas.Expand.expand_sharp_of_DSpec env s h
+
+/-- consequence: whenever the specification succeeds on a specified input, the code returns
+    exactly that path -/
+theorem C17_spec_ok (env : Env) (s p : Str) (h : Lemmas.Expand.DSpec env s = true)
+    (hs : expandSpec env s = .ok p) : expand env s = .ok p := by
+  rcases C17_agree_sharp env s h with h1 | ⟨_, h2⟩
+  · rw [h1, hs]
+  · rw [hs] at h2; cases h2
+
+/-- `DSpec` is exactly "no normal component of the tilde-expanded path is `Ambiguous`" -/
+theorem C17_DSpec_iff (env : Env) (s : Str) :
+    Lemmas.Expand.DSpec env s = true ↔
+      ∀ p, tildeSpec env s = .ok p → ∀ y, Comp.normal y ∈ components p → Ambiguous y = false := by
+  unfold Lemmas.Expand.DSpec
+  cases ht : tildeSpec env s with
+  | ok p =>
+    simp only [List.all_eq_true]
+    constructor
+    · intro h q hq y hy
+      injection hq with hq; subst hq
+      simpa [Lemmas.Expand.compUnamb] using h _ hy
+    · intro h c hc
+      cases c with
+      | normal y => simpa [Lemmas.Expand.compUnamb] using h p rfl y hc
+      | root => rfl
+      | cur => rfl
+      | parent => rfl
+  | err k => exact ⟨fun _ q hq => (nomatch hq), fun _ => rfl⟩
+  | panic => exact ⟨fun _ q hq => (nomatch hq), fun _ => rfl⟩
+  | hang => exact ⟨fun _ q hq => (nomatch hq), fun _ => rfl⟩
+
+theorem C17_D_subset_DSpec (env : Env) (s : Str) (h : D env s = true) :
+    Lemmas.Expand.DSpec env s = true :=
+  Lemmas.Expand.DSpec_of_D h
+
+/-- the domain `Spec.DErr` of the pre-repair theorem (`DSpec` minus the trailing-'$' class) is
+    inside `DSpec`: the old partial theorem is subsumed by `C17_errors` -/
+theorem C17_DErr_subset_DSpec (env : Env) (s : Str) (h : DErr env s = true) :
+    Lemmas.Expand.DSpec env s = true :=
+  Lemmas.Expand.DSpec_of_DErr h
 
 /-- the same inside `D`, where no component is malformed -/
 theorem C17_errors_in_D (env : Env) (s : Str) (h : D env s = true) :
     (∃ k, expand env s = .err k) ↔
       MultipleTilde s ∨ MisplacedTilde s ∨ HomeUnset env s ∨ UnsetVar env s := by
-  rw [C17_errors_partial env s (Lemmas.Expand.DErr_of_D h)]
+  rw [C17_errors env s (Lemmas.Expand.DSpec_of_D h)]
   have hn := Lemmas.Expand.not_emptyVarName_of_D h
   constructor
   · rintro (h | h | h | h | h)
@@ -136,34 +193,39 @@ theorem C17_errors_in_D (env : Env) (s : Str) (h : D env s = true) :
     · exact Or.inr (Or.inr (Or.inl h))
     · exact Or.inr (Or.inr (Or.inr (Or.inr h)))
 
-/-- non-vacuity of `DErr` outside `D`: an empty variable name is rejected -/
-example : DErr exEnv "a/$$V".toList = true ∧ D exEnv "a/$$V".toList = false ∧
+/-- non-vacuity of `DSpec` outside `D`: an empty variable name is rejected -/
+example : Lemmas.Expand.DSpec exEnv "a/$$V".toList = true ∧ D exEnv "a/$$V".toList = false ∧
     expand exEnv "a/$$V".toList = .err .invalidExpansion := by decide
+
+/-- non-vacuity of `DSpec` outside the old `DErr`: the trailing-'$' class is inside now -/
+example : Lemmas.Expand.DSpec exEnv "x/a$".toList = true ∧ DErr exEnv "x/a$".toList = false ∧
+    expand exEnv "x/a$".toList = .err .invalidExpansion := by decide
 
 /-- `expand` never panics or hangs: it returns a path or an error (every input) -/
 theorem C17_total (env : Env) (s : Str) :
     (∃ p, expand env s = .ok p) ∨ ∃ k, expand env s = .err k :=
   Lemmas.Expand.expand_cases env s
 
-/-! ### findings -/
+/-! ### the repaired finding: a trailing '$' -/
 
-/-- FINDING (a), violation: a trailing '$' in a component is silently dropped, in every
-    environment ... -/
-theorem C17_finding_trailing_dollar (env : Env) : expand env "a$".toList = .ok "a".toList := rfl
+/-- formerly FINDING (a) (`expand "a$" = "a"`, the '$' silently dropped).  With the repaired
+    scanner a trailing bare '$' is an empty variable name and fails, in every environment -/
+theorem C17_trailing_dollar_rejected (env : Env) :
+    expand env "a$".toList = .err .invalidExpansion := rfl
 
-/-- ... although "a$" has an empty variable name (malformed for the grammar), so the property
-    text demands a failure -/
-theorem C17_finding_trailing_dollar_spec (env : Env) :
+/-- ... which is what the specification demands of "a$" -/
+theorem C17_trailing_dollar_spec (env : Env) :
     parseComp "a$".toList = none ∧ expandSpec env "a$".toList = .err .invalidExpansion :=
   ⟨by decide, rfl⟩
 
-theorem C17_full_false : ¬ C17_full := by
-  intro h
-  have := h (fun _ => none) "a$".toList
-  rw [C17_finding_trailing_dollar, (C17_finding_trailing_dollar_spec _).2] at this
-  cases this
+/-- generally: the scanner rejects every component whose only '$' is its last character -/
+theorem C17_trailing_dollar_component (env : Env) (pre : Str) (hp : '$' ∉ pre) :
+    expandSeg env ((pre ++ ['$']).length + 1) (pre ++ ['$']) [] = .err .invalidExpansion :=
+  Lemmas.Expand.seg_lit_trailing_dollar env hp []
 
-/-- FINDING (b), recorded, not claimed as a violation (both inputs are `Ambiguous`): unbalanced
+/-! ### recorded observations -/
+
+/-- OBSERVATION (b), recorded, not claimed as a violation (both inputs are `Ambiguous`): unbalanced
     braces are accepted, `${V` and `$V}` expand like `${V}` -/
 theorem C17_finding_unbalanced_braces :
     expand exEnv "${V}".toList = .ok "val".toList ∧
@@ -178,6 +240,27 @@ theorem C17_finding_unbalanced_braces :
 theorem C17_finding_error_kind_order :
     expand (fun _ => none) "$a$$".toList = .err .var ∧
     expandSpec (fun _ => none) "$a$$".toList = .err .invalidExpansion := by decide
+
+/-- `C17_full` (literal equality everywhere) stays false, by the unordered error kinds — an
+    input that is NOT `Ambiguous` (so `C17_agree_sharp` applies to it: both fail) -/
+theorem C17_full_false : ¬ C17_full := by
+  intro h
+  have := h (fun _ => none) "$a$$".toList
+  rw [C17_finding_error_kind_order.1, C17_finding_error_kind_order.2] at this
+  cases this
+
+/-- ... and by the unspecified class: "${V" expands like "${V}" although the grammar rejects it -/
+theorem C17_full_false_ambiguous :
+    expand exEnv "${V".toList ≠ expandSpec exEnv "${V".toList ∧ Ambiguous "${V".toList = true := by
+  decide
+
+/-- the domain hypothesis of `C17_errors` cannot be dropped: on the `Ambiguous` input "${V" the
+    code succeeds although the component is malformed for the grammar -/
+theorem C17_errors_needs_DSpec :
+    Lemmas.Expand.DSpec exEnv "${V".toList = false ∧
+    (∃ p, expand exEnv "${V".toList = .ok p) ∧ EmptyVarName exEnv "${V".toList := by
+  refine ⟨by decide, ⟨_, C17_finding_unbalanced_braces.2.1⟩, ?_⟩
+  exact ⟨"${V".toList, by decide, by decide, .normal "${V".toList, by decide, by decide⟩
 
 /-! ### sanity of the specification's grammar (what `parseComp` accepts) -/
 
